@@ -2,6 +2,7 @@
 mod html;
 mod list;
 mod prefix;
+mod session;
 mod util;
 
 fn main() {
@@ -16,6 +17,7 @@ fn main() {
         "html" => html::main(),
         "list" => list::main(),
         "prefix" => prefix::main(),
+        "session" => session::main(),
         other => {
             eprintln!("unknown subcommand {other}");
             std::process::exit(2);
